@@ -112,4 +112,68 @@ pub fn vf_sum_service<T, F: Fn(&T) -> Service>(xs: &[T], f: F, Ghost(g): Ghost<s
 }
 
 
+pub open spec fn min_range(g: spec_fn(int) -> int, a: int, b: int) -> int
+    decreases b - a
+{
+    if b <= a { g(a) } else { let r = min_range(g, a, b - 1); if g(b) < r { g(b) } else { r } }
+}
+pub open spec fn max_range(g: spec_fn(int) -> int, a: int, b: int) -> int
+    decreases b - a
+{
+    if b <= a { g(a) } else { let r = max_range(g, a, b - 1); if g(b) > r { g(b) } else { r } }
+}
+pub proof fn lemma_min_range_le(g: spec_fn(int) -> int, a: int, b: int, k: int)
+    requires a <= k <= b
+    ensures min_range(g, a, b) <= g(k)
+    decreases b - a
+{ if b > a { if k < b { lemma_min_range_le(g, a, b - 1, k); } } }
+pub proof fn lemma_max_range_ge(g: spec_fn(int) -> int, a: int, b: int, k: int)
+    requires a <= k <= b
+    ensures max_range(g, a, b) >= g(k)
+    decreases b - a
+{ if b > a { if k < b { lemma_max_range_ge(g, a, b - 1, k); } } }
+
+/// R4: `(a..=b).map(f).min().unwrap()` with Service items
+pub fn vf_min_range_service<F: Fn(usize) -> Service>(a: usize, b: usize, f: F, Ghost(g): Ghost<spec_fn(int) -> int>) -> (r: Service)
+    requires a <= b, b < usize::MAX,
+        forall |k: usize| a <= k <= b ==> #[trigger] f.requires((k,)),
+        forall |k: usize, v: Service| a <= k <= b && #[trigger] f.ensures((k,), v) ==> v.v() == g(k as int),
+    ensures r.v() == min_range(g, a as int, b as int)
+{
+    let mut acc = f(a);
+    let mut k: usize = a + 1;
+    while k <= b
+        invariant a < k <= b + 1, b < usize::MAX, acc.v() == min_range(g, a as int, k - 1),
+            forall |k: usize| a <= k <= b ==> #[trigger] f.requires((k,)),
+            forall |k: usize, v: Service| a <= k <= b && #[trigger] f.ensures((k,), v) ==> v.v() == g(k as int),
+        decreases b + 1 - k
+    {
+        let v = f(k);
+        acc = acc.min(v);
+        k = k + 1;
+    }
+    acc
+}
+/// R4: `(a..=b).map(f).max().unwrap()` with Duration items
+pub fn vf_max_range_duration<F: Fn(usize) -> Duration>(a: usize, b: usize, f: F, Ghost(g): Ghost<spec_fn(int) -> int>) -> (r: Duration)
+    requires a <= b, b < usize::MAX,
+        forall |k: usize| a <= k <= b ==> #[trigger] f.requires((k,)),
+        forall |k: usize, v: Duration| a <= k <= b && #[trigger] f.ensures((k,), v) ==> v.v() == g(k as int),
+    ensures r.v() == max_range(g, a as int, b as int)
+{
+    let mut acc = f(a);
+    let mut k: usize = a + 1;
+    while k <= b
+        invariant a < k <= b + 1, b < usize::MAX, acc.v() == max_range(g, a as int, k - 1),
+            forall |k: usize| a <= k <= b ==> #[trigger] f.requires((k,)),
+            forall |k: usize, v: Duration| a <= k <= b && #[trigger] f.ensures((k,), v) ==> v.v() == g(k as int),
+        decreases b + 1 - k
+    {
+        let v = f(k);
+        acc = acc.max(v);
+        k = k + 1;
+    }
+    acc
+}
+
 } // verus!
